@@ -130,6 +130,14 @@ fn onum<T: std::fmt::Display>(v: Option<T>) -> String {
 
 static SENT: [u8; 8192] = [b'S'; 8192];
 
+/// when set, `run_request`/`run_response` fill the caller's array with `EMPTY_HEADER` (what a real
+/// caller does) instead of recognisable sentinels
+static FILL_EMPTY: std::sync::atomic::AtomicBool = std::sync::atomic::AtomicBool::new(false);
+
+fn fill_header(k: usize) -> Header<'static> {
+    if FILL_EMPTY.load(std::sync::atomic::Ordering::Relaxed) { httparse::EMPTY_HEADER } else { sentinel(k) }
+}
+
 fn sentinel(k: usize) -> Header<'static> {
     let k = k % 4096;
     // SAFETY: SENT is ASCII
@@ -221,10 +229,10 @@ fn run_request(entry: Entry, cfgbits: u32, buf: &[u8], acap: usize, ucap: usize,
     let mut a = mem::HeaderArena::new(acap, place);
     let mut u = mem::HeaderArena::new(ucap, place);
     for k in 0..acap {
-        a.slots_mut()[k] = MaybeUninit::new(sentinel(k));
+        a.slots_mut()[k] = MaybeUninit::new(fill_header(k));
     }
     for k in 0..ucap {
-        u.slots_mut()[k] = MaybeUninit::new(sentinel(1000 + k));
+        u.slots_mut()[k] = MaybeUninit::new(fill_header(1000 + k));
     }
     let abase = (a.base() as *const u8, acap);
     let ubase = (u.base() as *const u8, ucap);
@@ -267,10 +275,10 @@ fn run_response(entry: Entry, cfgbits: u32, buf: &[u8], acap: usize, ucap: usize
     let mut a = mem::HeaderArena::new(acap, place);
     let mut u = mem::HeaderArena::new(ucap, place);
     for k in 0..acap {
-        a.slots_mut()[k] = MaybeUninit::new(sentinel(k));
+        a.slots_mut()[k] = MaybeUninit::new(fill_header(k));
     }
     for k in 0..ucap {
-        u.slots_mut()[k] = MaybeUninit::new(sentinel(1000 + k));
+        u.slots_mut()[k] = MaybeUninit::new(fill_header(1000 + k));
     }
     let abase = (a.base() as *const u8, acap);
     let ubase = (u.base() as *const u8, ucap);
@@ -358,7 +366,7 @@ fn run_hist(args: &[&str]) -> Option<String> {
     let bufs: Vec<mem::ByteArena> = calls.iter().map(|(_, _, b)| mem::ByteArena::new(b, mem::Place::EndGuard, 0)).collect();
     let mut a = mem::HeaderArena::new(cap, mem::Place::EndGuard);
     for k in 0..cap {
-        a.slots_mut()[k] = MaybeUninit::new(sentinel(k));
+        a.slots_mut()[k] = MaybeUninit::new(httparse::EMPTY_HEADER);
     }
     let mut out = String::new();
     let view_before;
@@ -400,10 +408,13 @@ fn run_hist(args: &[&str]) -> Option<String> {
     }
     // fresh value, array of length `view_before`
     let e = if calls[n].0 == 0 { Entry::Plain } else { Entry::Cfg };
+    // the fresh value gets what a real caller gives it: an array of EMPTY_HEADER
+    FILL_EMPTY.store(true, std::sync::atomic::Ordering::Relaxed);
     let fresh = match *kind {
         "req" => run_request(e, calls[n].1, bufs[n].bytes(), view_before, 0, mem::Place::EndGuard),
         _ => run_response(e, calls[n].1, bufs[n].bytes(), view_before, 0, mem::Place::EndGuard),
     };
+    FILL_EMPTY.store(false, std::sync::atomic::Ordering::Relaxed);
     Some(format!("{} ;; {} ;; pre={} vb={}", probe_obs, fresh, if out.is_empty() { "-" } else { &out }, view_before))
 }
 
@@ -542,6 +553,17 @@ fn run_case(line: &str) -> Option<String> {
                 let mut args: Vec<&str> = head.clone();
                 args.push(&hx);
                 parts.push(run_basic(k, &args, mem::Place::EndGuard, 0)?);
+            }
+            Some(parts.join(" ;; "))
+        }
+        "capsweep" => {
+            // the same call under capacities 0..=maxcap
+            let k = *t.get(1)?;
+            let maxcap: usize = t.get(3)?.parse().ok()?;
+            let mut parts = Vec::new();
+            for cap in 0..=maxcap {
+                let c = cap.to_string();
+                parts.push(run_basic(k, &[*t.get(2)?, &c, *t.get(4)?], mem::Place::EndGuard, 0)?);
             }
             Some(parts.join(" ;; "))
         }
